@@ -95,6 +95,7 @@ var aeStepKinds = []string{
 	"re-transparent", "re-transparent", "re-transparent",
 	"small-delta", "small-delta",
 	"smaller", "larger",
+	"opaque-block", "erase-last+dots", "row", "row", "column",
 }
 
 // step derives the next frame picture from the previous placed canvas.
@@ -168,6 +169,75 @@ func (g *aeGen) step(prev []byte, kind string) (aeFrame, string) {
 			x, y := r.Intn(g.w), r.Intn(g.h)
 			g.set(cur, x, y, semi && r.Bool())
 			g.last = [4]int{x, y, x + 1, y + 1}
+		}
+	case "opaque-block": // a small fully opaque sprite
+		x0, y0, x1, y1 := g.block()
+		for y := y0; y < y1; y++ {
+			for x := x0; x < x1; x++ {
+				g.set(cur, x, y, true)
+			}
+		}
+		g.last = [4]int{x0, y0, x1, y1}
+	case "erase-last+dots":
+		// the area of the previous change turns fully transparent and a few opaque pixels appear
+		// elsewhere: the keep-the-canvas candidate cannot blend (and spans everything), the
+		// restore-the-background candidate only has to carry the dots - over unchanged pixels
+		l := g.last
+		for y := l[1]; y < l[3] && y < g.h; y++ {
+			for x := l[0]; x < l[2] && x < g.w; x++ {
+				o := 4 * (y*g.w + x)
+				cur[o], cur[o+1], cur[o+2], cur[o+3] = 0, 0, 0, 0
+			}
+		}
+		for k := 1 + r.Intn(3); k > 0; k-- {
+			x, y := r.Intn(g.w), r.Intn(g.h)
+			for try := 0; try < 8 && x >= l[0] && x < l[2] && y >= l[1] && y < l[3]; try++ {
+				x, y = r.Intn(g.w), r.Intn(g.h)
+			}
+			g.set(cur, x, y, true)
+		}
+	case "row", "column":
+		// a change confined to one row (column) with an EVEN coordinate - the sub-frame is then exactly
+		// one pixel high (wide) - that carries transparency
+		horiz := kind == "row"
+		n, m := g.w, g.h
+		if !horiz {
+			n, m = g.h, g.w
+		}
+		line := 2 * r.Intn((m+1)/2)
+		a := r.Intn(n)
+		b := a + 1 + r.Intn(n-a)
+		if r.Chance(1, 3) {
+			a, b = 0, n
+		}
+		transparent := false
+		for k := a; k < b; k++ {
+			x, y := k, line
+			if !horiz {
+				x, y = line, k
+			}
+			o := 4 * (y*g.w + x)
+			c := g.colour()
+			al := []byte{0, 128, byte(r.Next()), 255, 1, 254}[r.Intn(6)]
+			if k == b-1 && !transparent && al == 255 {
+				al = []byte{0, 128, 77}[r.Intn(3)]
+			}
+			if al != 255 {
+				transparent = true
+			}
+			nw := [4]byte{c[0], c[1], c[2], al}
+			if bytes.Equal(cur[o:o+4], nw[:]) {
+				nw[0] ^= 0x40
+				if nw[3] == 0 {
+					nw[3] = 128
+				}
+			}
+			copy(cur[o:], nw[:])
+		}
+		if horiz {
+			g.last = [4]int{a, line, b, line + 1}
+		} else {
+			g.last = [4]int{line, a, line + 1, b}
 		}
 	case "small-delta":
 		for k := 1 + r.Intn(3); k > 0; k-- {
@@ -296,12 +366,48 @@ func aeGenCase(r *RNG, rich bool) *aeCase {
 		first, _ = g.step(first.pix, []string{"smaller", "larger"}[r.Intn(2)])
 		c.genSteps = append(c.genSteps, "first:other-size")
 	}
+	// scripted three-step dispose pattern (1 case in 10): a full-canvas translucent first frame, a small
+	// opaque sub-frame, then a frame that makes that area transparent and adds scattered opaque pixels
+	// elsewhere; key frames are not forced, so that both dispose candidates are really weighed
+	var script []string
+	if r.Chance(1, 10) {
+		if c.w < 6 || c.h < 6 {
+			c.w, c.h = 6+2*r.Intn(6), 6+2*r.Intn(6)
+			g.w, g.h = c.w, c.h
+			g.last = [4]int{0, 0, c.w, c.h}
+		}
+		if g.alphaCls < 2 {
+			g.alphaCls = 2 + r.Intn(2)
+			c.alphaCls = aeAlphaNames[g.alphaCls]
+		}
+		if c.kmax != 0 && c.kmax != 9 {
+			c.kmin, c.kmax = 0, []int{0, 9}[r.Intn(2)]
+		}
+		pix := make([]byte, 4*c.w*c.h)
+		base := g.colour()
+		al := []byte{128, 128, 77, 200}[r.Intn(4)]
+		for i := 0; i < c.w*c.h; i++ {
+			col := base
+			if r.Chance(1, 4) {
+				col = g.colour()
+			}
+			pix[4*i], pix[4*i+1], pix[4*i+2], pix[4*i+3] = col[0], col[1], col[2], al
+		}
+		first = aeFrame{w: c.w, h: c.h, pix: pix}
+		script = []string{"opaque-block", "erase-last+dots"}
+		if n < 3 {
+			n = 3 + r.Intn(3)
+		}
+		c.genSteps = append(c.genSteps, "script:translucent,opaque-block,erase+dots")
+	}
 	first.dur = dur()
 	c.frames = append(c.frames, first)
 	prev := aePlace(c.w, c.h, first)
 	for len(c.frames) < n {
 		kind := aeStepKinds[r.Intn(len(aeStepKinds))]
-		if c.durCls == "near-2^24" && r.Chance(2, 5) {
+		if len(script) > 0 {
+			kind, script = script[0], script[1:]
+		} else if c.durCls == "near-2^24" && r.Chance(2, 5) {
 			kind = "repeat" // duration sums that overflow 2^24: filler frames, then more frames after them
 		}
 		f, k := g.step(prev, kind)
